@@ -49,7 +49,10 @@ func checkC11(c *Ctx, r *Report) {
 	// ---- R1 ---------------------------------------------------------------
 	r1 := r.Rule("C11-R1", "E1/E6", 8, "handleReserve: rsvp[p]=expire only past !relayed, ACL, !closed, constraints.Reserve==nil; voucher for (relay=self, peer=p) sealed with own key")
 	if f := r1.need(hr); f != nil {
-		ups := findInstrs(f, func(in ssa.Instruction) bool { _, ok := in.(*ssa.MapUpdate); return ok && isFieldWrite(in, relT+".rsvp") })
+		ups := findInstrs(f, func(in ssa.Instruction) bool {
+			_, ok := in.(*ssa.MapUpdate)
+			return ok && isFieldWrite(in, relT+".rsvp")
+		})
 		r1.guard(f, "rsvp[p] = expire", ups, "!isRelayAddr(remote addr)", notRelayed, nil)
 		r1.guard(f, "rsvp[p] = expire", ups, "acl == nil || AllowReserve", aclOK("AllowReserve"), nil)
 		r1.guard(f, "rsvp[p] = expire", ups, "!r.closed", edgeBool(isLoadOfField(relT+".closed"), false), nil)
@@ -118,14 +121,14 @@ func checkC11(c *Ctx, r *Report) {
 					return false
 				}
 				lk, ok := e.Tuple.(*ssa.Lookup)
-				return ok && isLoadOfField(relT + "." + field)(strip2(lk.X)) && key(lk.Index)
+				return ok && isLoadOfField(relT+"."+field)(strip2(lk.X)) && key(lk.Index)
 			}
 		}
 		r2.guard(f, "NewStream(dest)", ns, "rsvp[dest.ID] present", edgeBool(lookupOK("rsvp", destID), true), nil)
 		below := func(key func(ssa.Value) bool) EdgePred {
 			return edgeExcl(func(v ssa.Value) bool {
 				lk, ok := strip2(v).(*ssa.Lookup)
-				return ok && isLoadOfField(relT + ".conns")(strip2(lk.X)) && key(lk.Index)
+				return ok && isLoadOfField(relT+".conns")(strip2(lk.X)) && key(lk.Index)
 			}, func(v ssa.Value) bool {
 				fl, _ := loadOfField(strip2(v))
 				return fl != nil && fl.Name() == "MaxCircuits"
@@ -163,7 +166,7 @@ func checkC11(c *Ctx, r *Report) {
 		if okAdds {
 			var lks []ssa.Instruction
 			allInstrs(f, func(in ssa.Instruction) {
-				if lk, ok := in.(*ssa.Lookup); ok && (isLoadOfField(relT + ".conns")(strip2(lk.X)) || isLoadOfField(relT + ".rsvp")(strip2(lk.X))) {
+				if lk, ok := in.(*ssa.Lookup); ok && (isLoadOfField(relT+".conns")(strip2(lk.X)) || isLoadOfField(relT+".rsvp")(strip2(lk.X))) {
 					lks = append(lks, in)
 				}
 			})
@@ -339,16 +342,22 @@ func checkC11(c *Ctx, r *Report) {
 		}
 	}
 	// rmConn / addConn callers
-	r3.onlyCallers("call rmConn", []string{"(*"+relT+").rmConn"}, c.FnsOfPkg(relP), hc)
-	r3.onlyCallers("call addConn", []string{"(*"+relT+").addConn"}, c.FnsOfPkg(relP), hc)
+	r3.onlyCallers("call rmConn", []string{"(*" + relT + ").rmConn"}, c.FnsOfPkg(relP), hc)
+	r3.onlyCallers("call addConn", []string{"(*" + relT + ").addConn"}, c.FnsOfPkg(relP), hc)
 
 	// ---- R4 ---------------------------------------------------------------
 	r4 := r.Rule("C11-R4", "E1/E6", 5, "limited relays: unlimited copy only when no limit configured; limited copy through LimitReader(limit.Data); deadlines from limit.Duration")
 	limT := relP + ".RelayLimit"
 	if f := r4.need(hc); f != nil {
 		isLimit := isLoadOfField(relP + ".Resources.Limit")
-		unl := findInstrs(f, func(in ssa.Instruction) bool { _, isGo := in.(*ssa.Go); return isGo && isCallTo(in, "(*"+relT+").relayUnlimited") })
-		lim := findInstrs(f, func(in ssa.Instruction) bool { _, isGo := in.(*ssa.Go); return isGo && isCallTo(in, "(*"+relT+").relayLimited") })
+		unl := findInstrs(f, func(in ssa.Instruction) bool {
+			_, isGo := in.(*ssa.Go)
+			return isGo && isCallTo(in, "(*"+relT+").relayUnlimited")
+		})
+		lim := findInstrs(f, func(in ssa.Instruction) bool {
+			_, isGo := in.(*ssa.Go)
+			return isGo && isCallTo(in, "(*"+relT+").relayLimited")
+		})
 		r4.guard(f, "go relayUnlimited", unl, "r.rc.Limit == nil", edgeNil(isLimit, true), nil)
 		r4.Check(len(lim) == 2 && len(unl) == 2, hc+": two copy goroutines per mode", f.Pos(), 4, "", "", "")
 		for _, g := range lim {
@@ -406,12 +415,26 @@ func checkC11(c *Ctx, r *Report) {
 	r5.onlyIn("write "+relT+".rsvp", fieldWritePred(relT+".rsvp"), c.FnsOfPkg(relP), hr, "(*"+relT+").gc", "(*"+relT+").disconnected", relP+".New")
 	if f := r5.need("(*" + relT + ").gc"); f != nil {
 		dels := findInstrs(f, func(in ssa.Instruction) bool { return isCallTo(in, "builtin.delete") && isFieldWrite(in, relT+".rsvp") })
-		r5.guard(f, "delete(rsvp, p)", dels, "closed || expire.Before(now)", anyEdge(edgeBool(isLoadOfField(relT+".closed"), true), edgeBool(isCallResult(0, "(time.Time).Before"), true)), nil)
+		// expire < now, however spelled: A = the reservation's expiry (value of the rsvp range), B = time.Now()
+		isExpire := func(v ssa.Value) bool {
+			e, ok := strip2(v).(*ssa.Extract)
+			if !ok || e.Index != 2 {
+				return false
+			}
+			nx, ok := e.Tuple.(*ssa.Next)
+			if !ok {
+				return false
+			}
+			rg, ok := nx.Iter.(*ssa.Range)
+			return ok && isLoadOfField(relT+".rsvp")(strip2(rg.X))
+		}
+		expired := edgeExcl(isExpire, isCallResult(0, "time.Now"), ordEQ, ordGT)
+		r5.guard(f, "delete(rsvp, p)", dels, "closed || expire.Before(now)", anyEdge(edgeBool(isLoadOfField(relT+".closed"), true), expired), nil)
 		// and every expired/closed entry is deleted: the true edges lead to the delete
 		var hit []CFGEdge
 		for _, b := range f.Blocks {
 			for s := range b.Succs {
-				if edgeBool(isCallResult(0, "(time.Time).Before"), true)(b, s) || edgeBool(isLoadOfField(relT+".closed"), true)(b, s) {
+				if expired(b, s) || edgeBool(isLoadOfField(relT+".closed"), true)(b, s) {
 					hit = append(hit, CFGEdge{b, s})
 				}
 			}
@@ -451,7 +474,7 @@ func checkC11(c *Ctx, r *Report) {
 			var okVal ssa.Value
 			allInstrs(f, func(in ssa.Instruction) {
 				if e, ok := in.(*ssa.Extract); ok && e.Index == 1 {
-					if lk, ok := e.Tuple.(*ssa.Lookup); ok && isLoadOfField(relT + ".rsvp")(strip2(lk.X)) {
+					if lk, ok := e.Tuple.(*ssa.Lookup); ok && isLoadOfField(relT+".rsvp")(strip2(lk.X)) {
 						okVal = e
 					}
 				}
